@@ -27,6 +27,8 @@
  */
 #include "stderroutput.h"
 
+#include "util/file-snoopy.h"
+
 #include <stdio.h>
 
 
@@ -46,5 +48,5 @@
  */
 int snoopy_output_stderroutput (char const * const logMessage, __attribute__((unused)) char const * const arg)
 {
-    return fprintf(stderr, "%s\n", logMessage);
+    return snoopy_util_file_writeLineToCallerStream(stderr, logMessage);
 }
